@@ -123,19 +123,26 @@ type hconf struct {
 	LRU      bool
 	CB       int // 0 nil, 1 recorder, 2 re-entrant recorder
 	Refuse   bool
+	// MaxElem, when non-zero, is MaxElementSize: 17 admits exactly the values of single-digit workers and
+	// sequence numbers (key 2 + value 15 bytes), everything longer is refused
+	MaxElem uint
 }
 
 func confs() []hconf {
 	return []hconf{
-		{"unbounded", 0, 0, false, 0, false},
-		{"unbounded-lru", 0, 0, true, 1, false},
-		{"lru-count1", 0, 1, true, 1, false},
-		{"lru-count2", 0, 2, true, 1, false},
-		{"lru-count3", 0, 3, true, 2, false},
-		{"lru-size", 40, 0, true, 1, false},
-		{"lru-size-count", 60, 2, true, 2, false},
-		{"bounded-nolru-count2", 0, 2, false, 0, true},
-		{"bounded-nolru-size", 45, 0, false, 0, true},
+		{"unbounded", 0, 0, false, 0, false, 0},
+		{"unbounded-lru", 0, 0, true, 1, false, 0},
+		{"lru-count1", 0, 1, true, 1, false, 0},
+		{"lru-count2", 0, 2, true, 1, false, 0},
+		{"lru-count3", 0, 3, true, 2, false, 0},
+		{"lru-size", 40, 0, true, 1, false, 0},
+		{"lru-size-count", 60, 2, true, 2, false, 0},
+		{"bounded-nolru-count2", 0, 2, false, 0, true, 0},
+		{"bounded-nolru-size", 45, 0, false, 0, true, 0},
+		{"lru-count2-elem17", 0, 2, true, 1, true, 17},
+		{"unbounded-elem17", 0, 0, false, 0, true, 17},
+		{"lru-size40-elem100(clamped)", 40, 0, true, 2, false, 100},
+		{"lru-size60-count3-elem18", 60, 3, true, 1, true, 18},
 	}
 }
 
@@ -156,7 +163,9 @@ type history struct {
 }
 
 func mkVal(key string, worker, seq int) string {
-	body := fmt.Sprintf("%s|%d|%d", key, worker, seq)
+	// 15, 16 or 17 bytes for single-digit workers and sequence numbers: element-size limits of 17 and 18
+	// (key included) admit some and refuse others
+	body := fmt.Sprintf("%s|%d|%d%s", key, worker, seq, "__"[:(worker+seq)%3])
 	return fmt.Sprintf("%s|%08x", body, crc32.ChecksumIEEE([]byte(body)))
 }
 
@@ -218,7 +227,7 @@ type plan struct {
 }
 
 func (h *history) run(p plan, rng *rand.Rand) {
-	cc := cache.Config{MaxSize: h.conf.MaxSize, MaxCount: h.conf.MaxCount, EnableLRU: h.conf.LRU}
+	cc := cache.Config{MaxSize: h.conf.MaxSize, MaxCount: h.conf.MaxCount, EnableLRU: h.conf.LRU, MaxElementSize: h.conf.MaxElem}
 	if h.conf.CB != 0 {
 		cc.OnDelete = h.onDelete
 	}
